@@ -1,0 +1,29 @@
+//go:build verif
+
+package dispatcher
+
+import (
+	"net/netip"
+
+	"github.com/scionproto/scion/pkg/addr"
+)
+
+// Verification hooks (build tag verif): wrappers around unexported code, used
+// by the correspondence harness under /verif. No behaviour change.
+
+// VerifNewServer builds a Server without a socket (processMsgNextHop never
+// touches the connection) with the given dispatcher feature flag and service map.
+func VerifNewServer(isDispatcher bool, svcAddrs map[addr.Addr]netip.AddrPort) *Server {
+	s := NewServer(false, svcAddrs, nil)
+	s.isDispatcher = isDispatcher
+	return s
+}
+
+// VerifProcessMsgNextHop exposes processMsgNextHop.
+func (s *Server) VerifProcessMsgNextHop(
+	buf []byte,
+	underlay netip.Addr,
+	prevHop netip.AddrPort,
+) ([]byte, netip.AddrPort, error) {
+	return s.processMsgNextHop(buf, underlay, prevHop)
+}
